@@ -8,7 +8,7 @@ INVARIANT ZeroImpliesCoveredLine
 INVARIANT ZeroImpliesCoveredGoal
 INVARIANT SuiteZeroIffCoverageOne
 INVARIANT ObservedTraceWF
+INVARIANT ZeroImpliesCoveredBranchPred
 INVARIANT ConformsFitness
 INVARIANT ConformsCoverage
-INVARIANT ZeroImpliesCoveredBranchPred
 INVARIANT ConformsCovered
